@@ -60,4 +60,45 @@ def exchangeRouted (exch : (Bytes → Except Nat Bytes) → (Bytes → Except Na
     some (res, used, if used then some et else none)
   | _, _ => none
 
+/-! ## The caller's buffer through failed sends ("the same query")
+
+The UDP side and the TCP retry are handed the same slice. Here the buffer is
+state: a send attempt on a socket puts the connection-local id on the wire, and a
+failed send is followed by the next attempt (the pipeline transport's retry on
+another socket). Whether the UDP side only reads the caller's slice (the id goes
+into a copy) is a parameter, read from the source (T2 fact
+`c17UdpSideReadsQueryOnly`); the alternative modelled for `readsOnly = false` is
+the in-place patch that is not undone when the write fails. -/
+
+/-- `b` with its first two bytes (the DNS id) replaced. -/
+def setId (hi lo : UInt8) (b : Bytes) : Bytes := hi :: lo :: b.drop 2
+
+def idOf (b : Bytes) : UInt8 × UInt8 := (b.getD 0 0, b.getD 1 0)
+
+/-- One send attempt: the id the connection assigns and whether the socket write succeeds. -/
+structure Attempt where
+  hi : UInt8
+  lo : UInt8
+  writeOk : Bool
+  deriving Repr
+
+/-- The UDP side over a list of attempts against a server (wire query to reply): the
+outcome for the caller (the reply under the id read from the buffer) and the buffer afterwards. -/
+def udpSide (readsOnly : Bool) (srv : Bytes → Except Nat Bytes) : List Attempt → Bytes → Except Nat Bytes × Bytes
+  | [], b => (.error 0, b)
+  | a :: rest, b =>
+    if a.writeOk then
+      match srv (setId a.hi a.lo b) with
+      | .ok r => (.ok (setId (idOf b).1 (idOf b).2 r), b)
+      | .error e => (.error e, b)
+    else udpSide readsOnly srv rest (if readsOnly then b else setId a.hi a.lo b)
+
+/-- The exchange with the buffer threaded through: outcome, the frame the TCP side
+was given (if any) and the caller's buffer after the call. -/
+def exchangeBuf (readsOnly : Bool) (srv tcp : Bytes → Except Nat Bytes) (atts : List Attempt) (q : Bytes) :
+    Except Nat Bytes × Option Bytes × Bytes :=
+  match udpSide readsOnly srv atts q with
+  | (.error e, b) => (.error e, none, b)
+  | (.ok r, b) => if tcBit r then (tcp b, some b, b) else (.ok r, none, b)
+
 end Model.C17
